@@ -190,14 +190,19 @@ func genC20(t *rapid.T) *Case {
 	case "below":
 		total = g.intn(200, 480, "w")
 	case "boundary":
-		total = g.intn(488, 512, "w")
+		total = g.intn(494, 510, "w")
 	default:
 		total = g.intn(520, 900, "w")
 	}
+	// a minified page (no white space between the elements) comes with many short paragraphs
+	minified := g.chance(map[string]int{"boundary": 50}[wclass]+15, "minified")
 	var blocks []string
 	left := total
 	for left > 0 {
 		k := min(left, g.intn(40, 110, "pw"))
+		if minified {
+			k = min(left, g.intn(17, 30, "pwmin"))
+		}
 		if left-k < 17 && left-k > 0 { // no short tail paragraph: it could be classified differently
 			k = left
 		}
@@ -256,7 +261,7 @@ func genC20(t *rapid.T) *Case {
 	if wrap != "" {
 		b.WriteString("<" + wrap + ">\n")
 	}
-	if g.chance(map[string]int{"boundary": 50}[wclass]+15, "minified") {
+	if minified {
 		// a minified page: no white space between the elements
 		for i := range blocks {
 			blocks[i] = strings.ReplaceAll(blocks[i], ">\n", ">")
